@@ -197,21 +197,38 @@ partial def genStmts (n : Nat) (idx : Nat) (depth : Nat) (vars : List String) (f
   | 5 => do
     let c := s!"C{idx}"
     let fieldInit ← genE 2 vars fns
-    let mbody ← genE 2 ("a" :: vars) fns
+    -- statements of the method body before its return: nested functions and classes with their own static syntax
+    let (locals, lvars, lfns) ← if depth = 0 then pure ([], "a" :: vars, fns)
+      else genStmts (← rnd 3) (idx * 10 + 400) (depth - 1) ("a" :: vars) fns
+    let mbody ← genE 2 lvars lfns
     let mps : List Param := [{ name := "a", ty := some (← genTy 1 vars), opt := false, dflt := none }]
-    let members : List Member :=
+    let core : List Member :=
       [ .field (← genMods) false "fld" false false (← if (← chance 70) then some <$> genTy 1 vars else pure none) fieldInit,
         .field (← genMods) true "sfld" false false (some (.kw "number")) (.num (← rnd 9)),
-        .indexSig "key" (.kw "string") (.kw "any"),
-        .method { (← genMods) with readonly := false } false "m" (← genTParams) mps (← genRet (some "a") vars) (← genOverloads mps vars) mbody,
-        .method { (← genMods) with readonly := false } true "sm" [] mps .none [] (.bin "+" (.var "a") (.num 1)) ]
+        .method { (← genMods) with readonly := false } false "m" (← genTParams) mps (← genRet (some "a") vars) (← genOverloads mps vars) locals mbody,
+        .method { (← genMods) with readonly := false } true "sm" [] mps .none [] [] (.bin "+" (.var "a") (.num 1)),
+        -- a method that needs its receiver: called below through `!`, `as` and `<T>` around the callee
+        .method noMods false "self" [] [] (← genRet none vars) [] [] (.member (.var "this") "fld") ]
+    -- members without run-time meaning, at random positions (first, between, LAST)
+    let mut members := core
+    if (← chance 70) then
+      let at_ ← rnd (members.length + 1)
+      members := members.take at_ ++ [Member.indexSig "key" (.kw "string") (.kw "any")] ++ members.drop at_
+    if (← chance 60) then
+      let at_ ← rnd (members.length + 1)
+      members := members.take at_ ++ [Member.declareField "dfld" (← genTy 1 vars)] ++ members.drop at_
+    if (← chance 35) then
+      members := members ++ [← pick [Member.indexSig "k2" (.kw "string") (.kw "unknown"), Member.declareField "dlast" (.kw "number")]]
     let impls ← if (← chance 30) then pure [Ty.ref "Foo" [], Ty.ref "Array" [.kw "number"]] else pure []
     let s := Stmt.cls c (← genTParams) impls members
     let o := s!"v{idx}"
     let arg ← genE 1 vars fns
+    let recv := Expr.member (.newE c [] []) "self"
+    let callee ← pick [recv, .nonNull recv, .paren (.asT recv (.kw "any")), .paren (.angle (.kw "any") recv),
+      .paren (.nonNull recv), .nonNull (.paren (.satisfies recv (.kw "unknown")))]
     let use := Stmt.decl "const" o false (← if (← chance 50) then some <$> genTy 1 vars else pure none)
       (.bin "+" (.call (.member (.newE c (← genTArgs vars) []) "m") (← genTArgs vars) [arg])
-        (.bin "+" (.member (.newE c [] []) "fld") (.call (.member (.var c) "sm") [] [.member (.var c) "sfld"])))
+        (.bin "+" (.member (.newE c [] []) "fld") (.bin "+" (.call (.member (.var c) "sm") [] [.member (.var c) "sfld"]) (.call callee [] []))))
     let (rest, vs, fs) ← genStmts (n - 1) (idx + 1) depth (o :: vars) fns
     return (s :: use :: rest, vs, fs)
   | 6 => do
